@@ -47,7 +47,7 @@ def items(tier, seed):
                                  'dur': [0, 2, 'never']},
         top_open={'k': ['nest'], 'critical': [True], 'window': [1]},
         nest_open={}, extra=_base.X_THASH if th else [], k=3 if th else 2,
-        bound=3 if th else 2)
+        bound=3 if th else 1)
     # nesting: a critical and a non-critical raise inside the nested
     # scheduler, all critical combinations along the chain
     yield from spaces.mk(
